@@ -337,7 +337,11 @@ func BuildCte(query *Query, expr *sqlparser.With) error {
 			if err != nil {
 				return nil, err
 			}
-			query.data[copy.ID.String()] = rs
+			// evaluated once: later reads get the rows. The entry stays a CTE
+			// entry - `*` over dual does not list CTEs, evaluated or not
+			query.data[copy.ID.String()] = CteEvaluation(func() (any, error) {
+				return rs, nil
+			})
 			return rs, nil
 		})
 	}
